@@ -307,9 +307,12 @@ class Application(object):
                 norm_path = normalize_path(url_path, route.is_branch)
                 if norm_path != url_path:
                     if route.slash_mode == S_REDIRECT:
-                        parts = [request.url_root.rstrip('/'),
-                                 norm_path, '?', url_quote(request.query_string, safe=_QUERY_SAFE)]
-                        return redirect(''.join(parts))  # TODO: error_handler
+                        # the decoded path is re-escaped ('?', '#', '%' in a segment
+                        # would otherwise change what the Location means)
+                        location = request.url_root.rstrip('/') + url_quote(norm_path)
+                        if request.query_string:
+                            location += '?' + url_quote(request.query_string, safe=_QUERY_SAFE)
+                        return redirect(location)  # TODO: error_handler
                     elif route.slash_mode == S_STRICT:
                         nf_exc = err_handler.not_found_type(request=request,
                                                             application=self,
